@@ -138,6 +138,28 @@ func (e *Engine) invoke(st *state, fr *frame, in ssa.CallInstruction, recv *Val,
 		e.addEvent(st, fr, &Event{Kind: EvLock, Mode: "R" + name, Recv: rl.Args[0]}, in)
 		return one(st, nil)
 	}
+	// a hash/crc32 digest object made on this path (crc32.NewIEEE(), crc32.New(crc32.IEEETable)): Write folds the bytes
+	// into the running value exactly as crc32.Update does, Sum32 hands the running value out, Reset starts over
+	if h := stripIface(recv); h != nil && h.Op == "crc32hash" {
+		cur := st.content[h.Key()]
+		if cur == nil {
+			cur = mkConst(constant.MakeInt64(0), types.Typ[types.Uint32])
+		}
+		switch {
+		case name == "Write" && len(args) == 1:
+			p := e.contentOf(st, args[0])
+			tab := &Val{Op: "global", Name: "hash/crc32." + h.Name + "Table"}
+			st.content[h.Key()] = &Val{Op: "call", Name: "hash/crc32.Update", Args: []*Val{cur, tab, p}, Type: types.Typ[types.Uint32]}
+			return one(st, &Val{Op: "tuple", Args: []*Val{mkLen(p), mkNil(c.Signature().Results().At(1).Type())}})
+		case name == "Sum32" && len(args) == 0:
+			return one(st, cur)
+		case name == "Reset" && len(args) == 0:
+			st.content[h.Key()] = mkConst(constant.MakeInt64(0), types.Typ[types.Uint32])
+			return one(st, nil)
+		case (name == "Size" || name == "BlockSize") && len(args) == 0:
+			return one(st, mkInt(map[string]int64{"Size": 4, "BlockSize": 1}[name]))
+		}
+	}
 	// resolve through a known dynamic type
 	if recv.Op == "iface" {
 		inner := recv.Args[0]
@@ -1528,6 +1550,16 @@ func (e *Engine) model(st *state, fr *frame, in ssa.CallInstruction, fn *ssa.Fun
 				}
 			}
 		}
+		if name == "hash/crc32.NewIEEE" && len(args) == 0 {
+			return one(st, &Val{Op: "crc32hash", ID: e.id(), Name: "IEEE", Type: fn.Signature.Results().At(0).Type()}), true
+		}
+		if name == "hash/crc32.New" && len(args) == 1 {
+			tabName := "other"
+			if args[0] != nil && args[0].Contains(func(y *Val) bool { return y.Op == "global" && strings.Contains(y.Name, "IEEETable") }) {
+				tabName = "IEEE"
+			}
+			return one(st, &Val{Op: "crc32hash", ID: e.id(), Name: tabName, Type: fn.Signature.Results().At(0).Type()}), true
+		}
 		if name == "encoding/binary.Size" && len(args) == 1 {
 			v := stripIface(args[0])
 			if v.Type != nil {
@@ -1685,9 +1717,23 @@ func mergePureForks(pre *state, outs []*outcome, startID int) []*outcome {
 		for k, v := range pre.facts {
 			st2.facts[k] = v
 		}
-		// unite the panic sites (and effect-free loops) the alternatives passed
+		// unite the panic sites (and effect-free loops) the alternatives passed; each keeps the conditions of its own way
+		// beyond the shared ones (the bound a scan loop was left under discharges the index that follows it)
+		own := func(ev *Event, conds []Cond) *Event {
+			if ev.NCond <= n || !(ev.Kind == EvPanicSite || (ev.Kind == EvRep && !altHasWire(ev) && effectFree(ev))) {
+				return ev
+			}
+			c := *ev
+			c.Own = append(append([]Cond(nil), conds[n:min(ev.NCond, len(conds))]...), ev.Own...)
+			c.NCond = n
+			return &c
+		}
 		seenSite := map[string]bool{}
-		for _, ev := range st2.events {
+		st2.events = append([]*Event(nil), st2.events...)
+		for i, ev := range st2.events {
+			if i >= len(pre.events) {
+				st2.events[i] = own(ev, b.outs[0].st.conds)
+			}
 			if ev.Kind == EvPanicSite || ev.Kind == EvRep {
 				seenSite[siteOf(ev)] = true
 			}
@@ -1696,7 +1742,7 @@ func mergePureForks(pre *state, outs []*outcome, startID int) []*outcome {
 			for _, ev := range o.st.events {
 				if (ev.Kind == EvPanicSite || (ev.Kind == EvRep && !altHasWire(ev) && effectFree(ev))) && !seenSite[siteOf(ev)] {
 					seenSite[siteOf(ev)] = true
-					st2.events = append(st2.events, ev)
+					st2.events = append(st2.events, own(ev, o.st.conds))
 				}
 			}
 		}
